@@ -24,7 +24,17 @@ func vhTC(w *cert.VWorld, tv hotstuff.View, label hotstuff.View, cnt int, foreig
 // symbolic view label, 5 QC for an unknown block. tcSel: 0 none, 1 honest TC, 2 TC with q-1
 // signatures, 3 TC with one signature over another view, 4 TC whose label differs from the signed view.
 func VH_C07_syncinfo(n int, rule int, qcSel int, tcSel int) {
-	r := VNewReplica(n, rule, hotstuff.ID(2), vsymbolic())
+	// the replica under test (id 1) may itself lead the next view; it then has a command to
+	// propose (whether a proposal can be built depends on the sync info, e.g. not from a TC alone)
+	leader := hotstuff.ID(2)
+	if nondetBool("replica-leads-next-view") {
+		leader = 1
+		vcover("as-leader")
+	}
+	r := VNewReplica(n, rule, leader, vsymbolic())
+	if leader == 1 {
+		r.Cmds.Add(&clientpb.Command{ClientID: 1, SequenceNumber: 1})
+	}
 	w := r.W
 	q := hotstuff.QuorumSize(n)
 	gen := hotstuff.GetGenesis()
